@@ -430,8 +430,12 @@ def make_coords(shape, spacing, z=0):
 def dict_to_array(schema, inval):
     if isinstance(inval, dict):
         keys = sorted(list(inval.keys()))
+        # (only the axes that can label channels: not the pixel positions,
+        # whose values may happen to equal the keys, nor scalar coordinates)
         dims = {coord: sorted(list(schema.coords[coord].values))
-                for coord in schema.coords}
+                for coord in schema.coords
+                if coord not in ('x', 'y', 'z', 'flat', 'point')
+                and schema.coords[coord].ndim == 1}
         for name, coords in dims.items():
             if keys == coords:
                 if isinstance(list(inval.values())[0], xr.DataArray):
